@@ -79,6 +79,8 @@ def build_learner(spec):
         return K.FaultyLearner(**kw)
     if kind == "recording":
         return K.RecordingLearner(**kw)
+    if kind == "info":
+        return K.InfoLearner(**kw)
     raise ValueError(kind)
 
 
@@ -158,6 +160,26 @@ def tables(result, drop=TIMING):
         out[name] = rows
     out["experiment"] = _norm(dict(result.experiment))
     return out
+
+
+def state_sig(obj, depth=0):
+    """Comparable abstraction of an object's learned state (generator state of CobaRandom excluded)."""
+    if depth > 6:
+        return "..."
+    if obj is None or isinstance(obj, (int, float, str, bool, bytes)):
+        return obj
+    if isinstance(obj, dict):
+        return ("dict", tuple(sorted(((repr(k), state_sig(v, depth + 1)) for k, v in obj.items()), key=repr)))
+    if isinstance(obj, (list, tuple)):
+        return (type(obj).__name__, tuple(state_sig(v, depth + 1) for v in obj))
+    if isinstance(obj, (set, frozenset)):
+        return ("set", tuple(sorted(map(repr, obj))))
+    if type(obj).__name__ == "CobaRandom":
+        return ("CobaRandom", getattr(obj, "_seed", None))
+    d = getattr(obj, "__dict__", None)
+    if d is not None:
+        return (type(obj).__name__, state_sig(d, depth + 1))
+    return type(obj).__name__
 
 
 def diff_tables(a, b, limit=3):
